@@ -4,55 +4,12 @@
 package main
 
 import (
-	"io"
-	"log"
-	"os"
-
 	"verifharness/corelib"
 	"verifharness/hlib"
 )
 
-var classes = []string{"basic", "located", "nested", "prefix", "long", "root", "rootdeleg", "empty", "odd", "c02", "located", "nested"}
+var classes = []string{"basic", "located", "nested", "prefix", "long", "root", "rootdeleg", "empty", "odd", "c02", "mixedrd", "nested"}
 
-func run(a *hlib.Args, e *hlib.Emitter) error {
-	os.Setenv("TMPDIR", a.Scratch)
-	log.SetOutput(io.Discard)
-	if a.Replay != "" {
-		cs, err := corelib.ReadCases(a.Replay)
-		if err != nil {
-			return err
-		}
-		if err := corelib.BuildAll(cs, a.Scratch, 8); err != nil {
-			return err
-		}
-		for _, c := range cs {
-			e.Emit(c)
-		}
-		return nil
-	}
-	var cs []*corelib.FileCase
-	for i := 0; i < a.N; i++ {
-		r := hlib.NewRng(a.Seed, uint64(100+i))
-		class := classes[i%len(classes)]
-		g := corelib.Generate(r, class, 1700000000+int64(r.Intn(1000000)))
-		c := &corelib.FileCase{Class: class, Mtime: g.Mtime, Lines: g.Lines}
-		if c.Lines == nil {
-			c.Lines = []corelib.Line{}
-		}
-		nq := 30
-		if a.Tier == "thorough" {
-			nq = 40
-		}
-		c.Queries = corelib.GenQueries(g, nq)
-		cs = append(cs, c)
-	}
-	if err := corelib.BuildAll(cs, a.Scratch, 8); err != nil {
-		return err
-	}
-	for _, c := range cs {
-		e.Emit(c)
-	}
-	return nil
+func main() {
+	hlib.Main(func(a *hlib.Args, e *hlib.Emitter) error { return corelib.RunFiles(a, e, classes, 100) })
 }
-
-func main() { hlib.Main(run) }
